@@ -124,6 +124,9 @@ func concPart(c *vlib.Check, bins map[string]string, byWL map[int]string, thorou
 		}
 	}
 	for _, k := range cfgs {
+		if c.Violations() >= 6 {
+			return
+		}
 		// 1. model checking incl. liveness
 		mc, err := vlib.RunTLC(vlib.TLCOpts{Module: "ExecConc", Config: "MC_ExecConc.cfg", Workers: 4, CfgEdit: k.edit,
 			Scratch: vlib.Work("C05", "mc-"+k.String()), Timeout: 10 * time.Minute})
@@ -176,6 +179,9 @@ func concPart(c *vlib.Check, bins map[string]string, byWL map[int]string, thorou
 		for _, s := range scs {
 			c.AddEvals(1)
 			c.Class("replay|" + k.String())
+			if c.Violations() >= 6 {
+				break
+			}
 			if s.Result != nil && (s.Result.Hung || s.Result.Leaked > 0) {
 				s = vlib.Confirm(bins[byWL[k.WL]], s, nil)
 			}
